@@ -1725,3 +1725,10 @@ Section Spec.
       destruct (HOk eq_refl) as (_ & _ & _ & C3). rewrite C3. exact Un.
   Qed.
 End Spec.
+
+(* the recovery file: whatever the directory held before, after a save a load returns what was saved *)
+Theorem store_latest s img : store_read (store_save s img) = Some img.
+Proof. unfold store_save, store_read. destruct (needs_cloud img); reflexivity. Qed.
+Theorem store_one_file s img :
+  let s' := store_save s img in (f_pckl s' = None /\ f_cpckl s' = Some img) \/ (f_pckl s' = Some img /\ f_cpckl s' = None).
+Proof. unfold store_save. destruct (needs_cloud img); cbn; auto. Qed.
